@@ -119,7 +119,7 @@ def generate_platform(platform, outdir, session_names=None, additive=False, extr
             trail = em.re_term(ps["trail"], 0) if ps["trail"] else "Eps"
             # all carve-outs of a mode as ONE alternation under a single search (one substring tracker instead of a
             # product of trackers)
-            cterms = [em.re_term("|".join("(?:%s)" % c[0] for c in carves), re.I)] if carves else []
+            cterms = [em.re_term("|".join("(?:%s)" % c[0] for c in carves), 0)] if carves else []
             oid = "ob_%s_%s" % (vid, re.sub(r"[^A-Za-z0-9]", "_", mname))
             lines.append("Definition %s : obligation := mkOb %s %s comb_%s\n  (grammar_conjs [%s] [%s])\n  (grammar_conjs [%s] [%s])\n  [%s]\n  [%s] [Cat %s (Cat %s %s)]." % (
                 oid, coq_str("%s/%s/%s" % (platform, vlabel, mname)), tname, vid, "; ".join(pos), "; ".join(cterms),
